@@ -189,12 +189,29 @@ func TestTokensHandedOutAfterAReloadVerify(t *testing.T) {
 				reloadedSameKid = reloadedSameKid || next.KeyID != "" && next.KeyID == cur.KeyID && next.Key != cur.Key
 				cur = next
 
-				if err = os.WriteFile(path, renderKeyStore([]ksEntry{next}), 0o600); err != nil {
+				store := []ksEntry{next}
+				extra := ""
+
+				// the new file may hold further entries, also ones the signer cannot use (unsupported key sizes): whether
+				// such a reload is refused or not, key and published key set have to stay in step
+				switch rapid.IntRange(0, 4).Draw(t, "furtherEntries") {
+				case 0:
+					store = append(store, ksEntry{Key: rapid.SampledFrom([]string{"ecp224", "rsa1024"}).Draw(t, "unsupported"), Format: "pkcs8", KeyID: "weak"})
+					extra = " followed by an unsupported " + store[1].Key
+				case 1:
+					store = append([]ksEntry{{Key: rapid.SampledFrom([]string{"ecp224", "rsa1024"}).Draw(t, "unsupported"), Format: "pkcs8", KeyID: "weak"}}, store...)
+					extra = " preceded by an unsupported " + store[0].Key
+				case 2:
+					store = append(store, ksEntry{Key: "ecp521", Format: "pkcs8", KeyID: "second"})
+					extra = " followed by ecp521"
+				}
+
+				if err = os.WriteFile(path, renderKeyStore(store), 0o600); err != nil {
 					t.Fatalf("harness: %v", err)
 				}
 
 				w.Watcher.Fire(path)
-				history = append(history, fmt.Sprintf("reload with %s kid=%q", next.Key, next.KeyID))
+				history = append(history, fmt.Sprintf("reload with %s kid=%q%s", next.Key, next.KeyID, extra))
 
 				continue
 			}
